@@ -693,7 +693,7 @@ fn one_round(em: &mut Em, rng: &mut Rng) {
         // every third fit: explicit logit link (targets in (0,1)) — `link.inverse` is then the sigmoid
         let logit = rng.chance(1, 3);
         let gkind = if logit { "glm_logit" } else { "glm" };
-        let fitted = with_timeout(3000, move || {
+        let fitted = with_timeout(20000, move || {
             if logit {
                 let y01 = ypos.mapv(|v| v / (1.0 + v));
                 linfa_linear::TweedieRegressor::params().power(0.0).link(linfa_linear::Link::Logit).alpha(0.125).max_iter(30).fit(&Dataset::new(xs, y01)).ok()
@@ -757,7 +757,7 @@ fn one_round(em: &mut Em, rng: &mut Rng) {
     // logistic, binary and multinomial
     let (xc, yc) = (x.clone(), ybool.clone());
     let icpt = rng.coin();
-    match with_timeout(3000, move || linfa_logistic::LogisticRegression::default().with_intercept(icpt).max_iterations(40).fit(&Dataset::new(xc, yc)).map_err(|_| ())).unwrap_or(Err(())) {
+    match with_timeout(20000, move || linfa_logistic::LogisticRegression::default().with_intercept(icpt).max_iterations(40).fit(&Dataset::new(xc, yc)).map_err(|_| ())).unwrap_or(Err(())) {
         Ok(m) => {
             let mm = m.clone();
             let margin = move |r: ArrayView1<f64>| (mm.predict_probabilities(&row2(r))[0] - 0.5).abs();
@@ -772,7 +772,7 @@ fn one_round(em: &mut Em, rng: &mut Rng) {
         Err(_) => fail_fit(em, "logistic_binary"),
     }
     let (xc, yc) = (x.clone(), y.clone());
-    match with_timeout(3000, move || linfa_logistic::MultiLogisticRegression::default().with_intercept(icpt).max_iterations(40).fit(&Dataset::new(xc, yc)).map_err(|_| ())).unwrap_or(Err(())) {
+    match with_timeout(20000, move || linfa_logistic::MultiLogisticRegression::default().with_intercept(icpt).max_iterations(40).fit(&Dataset::new(xc, yc)).map_err(|_| ())).unwrap_or(Err(())) {
         Ok(m) => {
             let mm = m.clone();
             let margin = move |r: ArrayView1<f64>| top2_gap(&mm.predict_probabilities(&row2(r)).row(0).to_vec());
